@@ -161,6 +161,7 @@ func ceiling(s *slip.Scope, f slip.Object, args slip.List, depth int) slip.Value
 				r = (*slip.Bignum)(&zr)
 			}
 		}
+		q, r = reduceNumber(q), reduceNumber(r)
 	case *slip.Ratio:
 		var (
 			zr big.Rat
@@ -200,6 +201,7 @@ func ceiling(s *slip.Scope, f slip.Object, args slip.List, depth int) slip.Value
 				r = (*slip.Ratio)(&zr)
 			}
 		}
+		q, r = reduceNumber(q), reduceNumber(r)
 	case slip.Complex:
 		slip.TypePanic(s, depth, "number", tn, "real")
 	}
